@@ -1,4 +1,42 @@
-(* placeholder until the proofs are integrated *)
-From DictIO Require Import Chars Str Value Scalar.
-Theorem C13_placeholder : True. Proof. exact I. Qed.
-Print Assumptions C13_placeholder.
+(* C13  Reads write nothing, writes touch only their target, failures destroy nothing (logic part: the order
+   serialise-then-open and the target name; OS behaviour is observed by the check's file-tree snapshots). *)
+From Coq Require Import NArith ZArith List Bool.
+From DictIO Require Import Chars Str Value Scalar Cli MiscSpec CliProofs.
+Import ListNotations.
+
+Theorem C13_read_pure : forall fs p, fs_step fs (FRead p) = fs.
+Proof. exact fs_read_pure. Qed.
+Print Assumptions C13_read_pure.
+
+(* a write changes its target and nothing else, whatever the history of operations before *)
+Theorem C13_frame : forall fs t c q, q <> t -> fs_get q (fs_step fs (FWrite t c)) = fs_get q fs.
+Proof. exact fs_frame. Qed.
+Print Assumptions C13_frame.
+
+Theorem C13_write_target : forall fs t txt, fs_get t (fs_step fs (FWrite t (Ok txt))) = Some txt.
+Proof. exact fs_write_target. Qed.
+Print Assumptions C13_write_target.
+
+(* a failing serialisation leaves the previously existing target (and everything else) intact *)
+Theorem C13_no_clobber : forall fs t e, fs_step fs (FWrite t (Raise e)) = fs.
+Proof. exact fs_no_clobber. Qed.
+Print Assumptions C13_no_clobber.
+
+(* every reachable state: only targets of successful writes ever differ from the initial tree *)
+Theorem C13_history : forall ops fs q,
+  (forall t txt, In (FWrite t (Ok txt)) ops -> t <> q) -> fs_get q (fold_left fs_step ops fs) = fs_get q fs.
+Proof. exact fs_history_frame. Qed.
+Print Assumptions C13_history.
+
+(* target name: the extension is chosen by the output format *)
+Theorem C13_name_ext : forall name scope o, In o [of_string "foam"; of_string "json"; of_string "xml"] ->
+  exists base, target_file_name name (Some w_parsed) scope (Some o) = base ++ c_dot :: o.
+Proof. exact target_ext. Qed.
+Print Assumptions C13_name_ext.
+
+(* the prefix is applied exactly once: deriving the target name of a derived name changes nothing *)
+Theorem C13_prefix_once : forall name, word_name name ->
+  let t := target_file_name name (Some w_parsed) [] None in
+  target_file_name t (Some w_parsed) [] None = t /\ t = w_parsed ++ c_dot :: name.
+Proof. exact target_prefix_once. Qed.
+Print Assumptions C13_prefix_once.
